@@ -21,6 +21,8 @@ def Err.name : Err → String
 structure Entry where
   cfg : Cfgable
   objId : Nat
+  /-- a class: calling it supplies the instance (`self` / `cls`) as first positional argument -/
+  isClass : Bool := false
 deriving Repr, Inhabited
 
 /-- a binding key as accepted by `bind_parameter` after splitting: scope, given selector, parameter -/
@@ -123,6 +125,7 @@ structure RegReq where
   listTypesOk : Bool := true
   objId : Nat
   isMethod : Bool := false
+  isClass : Bool := false
   /-- selectors of already registered functions that are methods of the class being registered
       (`_find_registered_methods`, only for `register` / `external_configurable`) -/
   methods : List Sel := []
@@ -161,7 +164,7 @@ def register (st : State) (r : RegReq) : Except Err State :=
   if !(r.allow.all r.sig.mightHave) || !(r.deny.all r.sig.mightHave) then .error .valueError else
   if !r.cfgable.requiredKwargsValid then .error .valueError else
   .ok { st with registry := (renameMethods st.registry r.cfgable.selector r.methods).set
-                  r.cfgable.selector { cfg := r.cfgable, objId := r.objId } }
+                  r.cfgable.selector { cfg := r.cfgable, objId := r.objId, isClass := r.isClass } }
 
 /-! ### calling a configurable under an active scope -/
 
